@@ -221,7 +221,7 @@ def finish(check, tier, seed, agg, space_info, capped, t0):
 
     rc = 0
     if new:
-        rdir = os.path.join(VERIF, "replays", pid)
+        rdir = os.path.join(os.environ.get("FADLMC_REPLAY_DIR", os.path.join(VERIF, "replays")), pid)
         os.makedirs(rdir, exist_ok=True)
         shown = 0
         for k, v in new.items():
@@ -305,8 +305,9 @@ def write_evidence(check, tier, seed, agg, space_info, capped, t0, n_new, hit, n
         "coverage": cov, "assumptions": list(check.assumptions),
         "wall_s": round(time.time() - t0, 2), "violations": n_new,
     }
-    os.makedirs(os.path.join(VERIF, "evidence"), exist_ok=True)
-    with open(os.path.join(VERIF, "evidence", f"{pid}.json"), "w") as f:
+    edir = os.environ.get("FADLMC_EVIDENCE_DIR", os.path.join(VERIF, "evidence"))
+    os.makedirs(edir, exist_ok=True)
+    with open(os.path.join(edir, f"{pid}.json"), "w") as f:
         json.dump(ev, f, indent=1, default=repr)
 
 
